@@ -35,12 +35,12 @@ SINGLE = {"get": "multiget", "getnext": "multigetnext", "set": "multiset"}
 
 def run(ctx: Ctx, rep: Report) -> None:
     rep.rule("C04-R1", "requests carry the PDU class of the operation and one binding per requested OID in the caller's order", floor=6)
-    rep.rule("C04-R2", "a response with a different number of bindings than requested is refused with SnmpError, all others are accepted", floor=27)
-    rep.rule("C04-R3", "results are extracted positionally and faithfully from the response", floor=3)
+    rep.rule("C04-R2", "a response with a different number of bindings than requested is refused with SnmpError, all others are accepted", floor=14)
+    rep.rule("C04-R3", "results are extracted positionally and faithfully from the response", floor=2)
     rep.rule("C04-R4", "a constant subscript on a result list is preceded by an established length", floor=2)
-    rep.rule("C04-R5", "a missing object (noSuchObject / noSuchInstance value) raises NoSuchOID for the requested OID", floor=4)
-    rep.rule("C04-R6", "operations taking a caller-ordered OID list keep one result position per requested OID", floor=2)
-    rep.rule("C04-R8", "get-next hands out every lexicographic successor: the progress guard passes requested < retrieved, position by position (shared with C03-R2/R3)", floor=8)
+    rep.rule("C04-R5", "a missing object (noSuchObject / noSuchInstance value) raises NoSuchOID for the requested OID", floor=3)
+    rep.rule("C04-R6", "operations taking a caller-ordered OID list keep one result position per requested OID", floor=1)
+    rep.rule("C04-R8", "get-next hands out every lexicographic successor: the progress guard passes requested < retrieved, position by position (shared with C03-R2/R3)", floor=4)
     rep.rule("C04-R7", "get-bulk: size bound, OID list, counters and response split agree (shared with C02-R2/R3)", floor=30)
     rep.assumptions += ["the response PDU's binding list is what the agent sent (C06)", "request-id handling is C07, error-status handling is C08, GETBULK bound is C02"]
     client = ctx.client()
@@ -98,6 +98,14 @@ def run(ctx: Ctx, rep: Report) -> None:
             for gnode in guards:
                 raising = [cfg.nodes[nid] for nid, lab in cfg.succ[gnode.id] if lab is True]
                 okg = bool(raising) and snode is not None and cfg.must_pass(cfg.entry, [snode], [gnode]) and any(isinstance(cfg.nodes[t].ast, ast.Raise) for t in cfg.reachable(raising[0]) if cfg.nodes[t].ast is not None) and "any(" in norm(gnode.ast) and "not isinstance" in norm(gnode.ast)
+            if not okg:
+                # the same refusal inside the loop that builds the bindings: `for .. in mappings.items(): if not isinstance(v, T): raise`
+                for loop in [n for n in own_nodes(meth.node) if isinstance(n, ast.For) and norm(n.iter) in (f"{req_param}.items()", f"{req_param}.values()")]:
+                    tnames = {n.id for n in ast.walk(loop.target) if isinstance(n, ast.Name)}
+                    for st_ in loop.body:
+                        if isinstance(st_, ast.If) and not st_.orelse and isinstance(st_.test, ast.UnaryOp) and isinstance(st_.test.op, ast.Not) and isinstance(st_.test.operand, ast.Call) and norm(st_.test.operand.func) == "isinstance" and isinstance(st_.test.operand.args[0], ast.Name) and st_.test.operand.args[0].id in tnames and st_.body and isinstance(st_.body[-1], ast.Raise):
+                            lnode = cfg_node_of(cfg, loop)
+                            okg = lnode is not None and snode is not None and cfg.must_pass(cfg.entry, [snode], [lnode])
             rep.check(okg, "C04-R1", meth.site(), "multiset refuses values that are not x690 typed before building the request", key=f"{meth.key}|untyped-value")
 
         # ------------------------------------------------------------ R2
@@ -106,6 +114,8 @@ def run(ctx: Ctx, rep: Report) -> None:
         st = stmt_of(sends[0])
         if isinstance(st, ast.Assign):
             res_names = {n.id for t in st.targets for n in ast.walk(t) if isinstance(n, ast.Name)}
+
+        request_item_names = {n.id for loop in own_nodes(meth.node) if isinstance(loop, ast.For) and norm(loop.iter) in (f"{req_param}.items()", f"{req_param}.values()") for n in ast.walk(loop.target) if isinstance(n, ast.Name)}
 
         def atoms_for(req_len: int, count: int):
             def atom(expr: ast.AST) -> Optional[Any]:
@@ -127,6 +137,8 @@ def run(ctx: Ctx, rep: Report) -> None:
                 def env(expr: ast.expr) -> Optional[bool]:
                     if isinstance(expr, ast.Call) and isinstance(expr.func, ast.Name) and expr.func.id == "any":
                         return False  # all SET values are typed in this scenario
+                    if isinstance(expr, ast.Call) and isinstance(expr.func, ast.Name) and expr.func.id == "isinstance" and expr.args and isinstance(expr.args[0], ast.Name) and expr.args[0].id in request_item_names:
+                        return True  # ... also when they are tested one by one in the loop over the request
                     return env0(expr)
 
                 outs = simulate(cfg, env)
